@@ -37,8 +37,16 @@ def gen_case(rng):
     if rng.random() < 0.45:
         kind = rng.choice(LITERALS)
     else:
-        kind = '.'.join(rng.choice(KEYS) for _ in range(rng.randint(1, 4)))
+        segs = [rng.choice(KEYS) for _ in range(rng.randint(1, 4))]
+        if rng.random() < 0.12:
+            # an empty path segment is a key like any other (the empty string), not something to skip
+            segs.insert(rng.randrange(len(segs) + 1), '')
+            if segs == ['']:
+                segs = ['', 'a']
+        kind = '.'.join(segs)
     creds = {k: rand_value(rng, 3) for k in rng.sample(KEYS, rng.randint(0, 3))}
+    if rng.random() < 0.1:
+        creds[''] = rand_value(rng, 2)
     # aim the right side at something reachable half of the time
     def walk(v, ks):
         if not ks:
@@ -50,7 +58,7 @@ def gen_case(rng):
             return walk(w, ks[1:])
         return []
     cands = []
-    if '.' in kind or kind in KEYS:
+    if '.' in kind or kind in KEYS or kind == '':
         cands = [str(z) for z in walk(creds, kind.split('.'))]
     else:
         try:
@@ -58,6 +66,11 @@ def gen_case(rng):
         except Exception:   # noqa
             cands = []
     rhs = rng.choice(cands) if cands and rng.random() < 0.6 else str(rng.choice(SCALARS))
+    r = rng.random()
+    if r < 0.08:
+        rhs = rng.choice([rhs.lower(), rhs.upper(), rhs.swapcase()])      # the comparison is exact, case included
+    elif r < 0.14:
+        rhs = rng.choice([' ' + rhs, rhs + ' ', rhs + '\n'])                # ... and white space
     if rng.random() < 0.5:
         parts = [('lit', rhs)]
     else:
